@@ -331,6 +331,8 @@ func (c *XAConn) Commit(ctx context.Context) error {
 
 	now := time.Now()
 	if err := c.end(ctx, xa.TMSuccess); err != nil {
+		// the branch may still be ACTIVE: XA ROLLBACK is legal only after XA END
+		_ = c.xaResource.End(ctx, c.xaBranchXid.String(), xa.TMFail)
 		return c.commitErrorHandle(ctx, err)
 	}
 
